@@ -1,19 +1,87 @@
 package main
 
 import (
+	"flag"
 	"fmt"
-	"golang.org/x/tools/go/packages"
+	"os"
+	"strings"
+
 	"golang.org/x/tools/go/ssa"
-	"golang.org/x/tools/go/ssa/ssautil"
 )
 
+func usage() {
+	fmt.Fprintln(os.Stderr, `tablelint — repository-specific static analyzer for weedbox/pokertable
+  tablelint check -p C01 [-tier quick|thorough] [-repo /repo] [-verif /verif]
+  tablelint explain <replay.json>
+  tablelint dump [-repo /repo] [-fn substr]     (debug: stores, calls, guards)`)
+	os.Exit(2)
+}
+
 func main() {
-	cfg := &packages.Config{Mode: packages.LoadAllSyntax, Dir: "/repo", BuildFlags: []string{"-tags=verif"}}
-	pkgs, err := packages.Load(cfg, "./...")
-	if err != nil {
-		panic(err)
+	if len(os.Args) < 2 {
+		usage()
 	}
-	prog, spkgs := ssautil.AllPackages(pkgs, ssa.InstantiateGenerics)
-	prog.Build()
-	fmt.Println(len(pkgs), len(spkgs))
+	switch os.Args[1] {
+	case "check":
+		os.Exit(cmdCheck(os.Args[2:]))
+	case "explain":
+		os.Exit(cmdExplain(os.Args[2:]))
+	case "dump":
+		os.Exit(cmdDump(os.Args[2:]))
+	case "control":
+		os.Exit(cmdControl(os.Args[2:]))
+	default:
+		usage()
+	}
+}
+
+func cmdDump(args []string) int {
+	fs := flag.NewFlagSet("dump", flag.ExitOnError)
+	repo := fs.String("repo", "/repo", "")
+	fnf := fs.String("fn", "", "")
+	showG := fs.Bool("g", false, "show guards")
+	fs.Parse(args)
+	p, err := Load(LoadConfig{Repo: *repo, Tags: "verif"})
+	if err != nil {
+		fmt.Fprintln(os.Stderr, err)
+		return 2
+	}
+	for _, f := range p.Funcs {
+		if *fnf != "" && !strings.Contains(FuncName(f), *fnf) {
+			continue
+		}
+		fmt.Printf("== %s  (%s) blocks=%d\n", FuncName(f), p.Pos(f.Pos()), len(f.Blocks))
+		for _, b := range f.Blocks {
+			for _, in := range b.Instrs {
+				var line string
+				switch x := in.(type) {
+				case *ssa.Store, *ssa.MapUpdate:
+					ss := p.storeSite(in)
+					line = fmt.Sprintf("STORE %s = %s", ss.Addr, ss.Val)
+				case ssa.CallInstruction:
+					line = fmt.Sprintf("CALL  %s", p.CallSym(x))
+				case *ssa.Return:
+					var rs []string
+					for _, r := range x.Results {
+						rs = append(rs, p.Sym(r).String())
+					}
+					line = "RET   " + strings.Join(rs, ", ")
+				case *ssa.If:
+					line = "IF    " + p.Sym(x.Cond).String()
+				default:
+					continue
+				}
+				var gs []string
+				for _, g := range p.Guards(in) {
+					gs = append(gs, g.String())
+				}
+				fmt.Printf("  b%-2d %-14s %s", b.Index, p.InstrPos(in), line)
+				if len(gs) > 0 && *showG {
+					fmt.Printf("   «%s»", strings.Join(gs, " ∧ "))
+				}
+				fmt.Println()
+			}
+		}
+	}
+	return 0
 }
